@@ -15,6 +15,8 @@ import (
 	"golang.org/x/tools/go/ssa"
 )
 
+var debugPanics = os.Getenv("GOSYM_DEBUG_PANIC") != ""
+
 type continuation int
 
 const (
@@ -58,6 +60,7 @@ type Interp struct {
 
 	violations     []*Violation
 	abortStack     string
+	panicSeen      map[string]bool
 	violationsMark int
 }
 
@@ -86,6 +89,13 @@ func (in *Interp) rollback(mark int) {
 	in.undo = in.undo[:mark]
 }
 
+// lazyElem is the address of an element selected by a symbolic index, valid
+// only as the operand of the load it is fused with.
+type lazyElem struct {
+	elems []value
+	idx   value
+}
+
 type deferred struct {
 	fn    value
 	args  []value
@@ -105,6 +115,7 @@ type cinstr struct {
 	rest    []operand
 	typ     types.Type // cached type info (instruction dependent)
 	typ2    types.Type
+	fused   bool
 }
 
 type phiInfo struct {
@@ -310,6 +321,13 @@ func (in *Interp) info(fn *ssa.Function) *fnInfo {
 				ci.a = op(x.X)
 			case *ssa.IndexAddr:
 				ci.a, ci.b = op(x.X), op(x.Index)
+				// fuse "load of indexed element" so that a symbolic index can be
+				// answered by selection instead of concretisation
+				if refs := x.Referrers(); refs != nil && len(*refs) == 1 {
+					if u, ok := (*refs)[0].(*ssa.UnOp); ok && u.Op == token.MUL {
+						ci.fused = true
+					}
+				}
 			case *ssa.Index:
 				ci.a, ci.b = op(x.X), op(x.Index)
 			case *ssa.Lookup:
@@ -550,6 +568,18 @@ func (fr *frame) visitInstr(ci *cinstr) continuation {
 	case *ssa.IndexAddr:
 		x := fr.get(ci.a)
 		idx := fr.get(ci.b)
+		if _, isSym := idx.(symv); isSym && ci.fused {
+			switch x := x.(type) {
+			case []value:
+				fr.set(ci, lazyElem{x, idx})
+				return kNext
+			case *value:
+				if x != nil {
+					fr.set(ci, lazyElem{[]value((*x).(array)), idx})
+					return kNext
+				}
+			}
+		}
 		switch x := x.(type) {
 		case []value:
 			i := fr.concreteIndex(idx, len(x))
@@ -614,6 +644,32 @@ func (fr *frame) visitInstr(ci *cinstr) continuation {
 	return kNext
 }
 
+// mapLookup looks idx up in m.  A symbolic key is compared with each
+// present key (forking only where interval facts cannot decide), instead of
+// being concretised.
+func (fr *frame) mapLookup(m *omap, idx value) (value, bool) {
+	switch k := idx.(type) {
+	case *symString, symv:
+		if m == nil {
+			return nil, false
+		}
+		for i := range m.keys {
+			if !m.live[i] {
+				continue
+			}
+			b, t := fr.eqv(m.keyType, k, m.keys[i])
+			if t != nil {
+				b = fr.branch(t)
+			}
+			if b {
+				return m.vals[i], true
+			}
+		}
+		return nil, false
+	}
+	return m.lookup(fr.mapKey(idx))
+}
+
 // mapKey normalises a map key (symbolic keys must be concretised).
 func (fr *frame) mapKey(k value) value {
 	switch k := k.(type) {
@@ -630,7 +686,7 @@ func (fr *frame) mapKey(k value) value {
 func (fr *frame) lookup(instr *ssa.Lookup, x, idx value) value {
 	switch x := x.(type) {
 	case *omap:
-		v, ok := x.lookup(fr.mapKey(idx))
+		v, ok := fr.mapLookup(x, idx)
 		if !ok {
 			v = zero(instr.X.Type().Underlying().(*types.Map).Elem())
 		}
@@ -753,6 +809,10 @@ func (fr *frame) runFrame() {
 		}
 		fr.panicking = true
 		fr.panic = p
+		if debugPanics && !fr.i.panicSeen[fmt.Sprint(p)] {
+			fr.i.panicSeen[fmt.Sprint(p)] = true
+			fmt.Fprintf(os.Stderr, "DEBUG target panic: %s\n%s\n", describePanic(p), fr.stackAt())
+		}
 		if fr.i.trace {
 			fmt.Fprintf(os.Stderr, "Panicking in %s: %T %v\n", fr.fn, p, p)
 		}
